@@ -305,7 +305,13 @@ def f4(prog, ctx):
             ctx.ok("F4", "%s = %s with (NULL, NULL)" % (plain, cbv), f.where, "statement sequences identical after substituting NULL for callback/callback_data (%d statements)" % len(na))
         else:
             diff = [x for x in na if x not in nb] + [x for x in nb if x not in na]
-            ctx.fail("F4", "%s = %s with (NULL, NULL)" % (plain, cbv), f.where, "bodies differ: %s" % diff[:2], key="sibling:%s" % plain)
+            decisive = [x for x in diff if "WithCallback(" in x or x.startswith("return") or re.search(r"parse_dirs\[\d+\]=", x) or "parse_dirs_count=" in x
+                        or x.startswith("if(") or x.startswith("for(") or x.startswith("while(")]
+            if decisive:
+                ctx.fail("F4", "%s = %s with (NULL, NULL)" % (plain, cbv), f.where, "bodies differ: %s" % decisive[:2], key="sibling:%s" % plain)
+            else:
+                # the twins differ in how they allocate / terminate their directory array, not in what they pass on: not decided here
+                ctx.inconclusive("F4", "%s = %s with (NULL, NULL)" % (plain, cbv), f.where, "bodies differ in statements that are not calls, tests or directory slots: %s" % diff[:2])
 
 
 def f6_f7(prog, ctx):
